@@ -141,7 +141,7 @@ def r2_renormalisation(ctx, rule):
            [(st, None) for st, v in ddefs if v is None]
     facts['divisor'] = D
     facts['divisor_defs'] = [U(st)[:80] for st, v in ddefs]
-    if len(init) != 1 or const(init[0]) not in (1, 1.0):
+    if not init or any(const(v) not in (1, 1.0) for v in init):
         ok = False
         ctx.bad(rule, LB, 'divisor initialised to %s' % [U(v) for v in init], 'total probability must start at 1.0', facts, fn)
     n_sub = 0
